@@ -501,6 +501,8 @@ def walker_dependency(rep, tier):
                    function='mindsdb_sql.planner.utils:query_traversal', clause='the visitor is applied once to every node reachable through the slots this property uses; replacements land in place')
 
 def check(rep, tier):
+    from vlib import statecensus
+    statecensus.obligations(rep, 'C12', 'planner')
     walker_dependency(rep, tier)
     rep.dropped = 'function bodies read with ast.parse; nested visitor functions are closures executed by pysym; docstrings/comments dropped'
     rep.assume('C13 contract of query_traversal (the visitor is applied once per node in textual order) for node kinds where C13 proves it',
